@@ -42,6 +42,18 @@ OpsTxt ==
   {O("txt.edit", a, 0, 3) : a \in {1, 2}} \cup
   {O("txt.style", a, b, a) : a \in {0, 2}, b \in {0, 1}}
 
+OpsTxtNoStyle ==
+  {O("txt.edit", a, b, v) : a \in {0, 1, 3}, b \in {0, 1, 2}, v \in {0, 2}} \cup
+  {O("txt.edit", a, 0, 3) : a \in {1, 2}}
+OpsTreeTextNoStyle ==
+  {O("tree.edit", a, b, v) : a \in 0..1, b \in 0..2, v \in {0, 1, 4}} \cup {O("tree.edit", a, 0, 2) : a \in 0..2}
+OpsTreeElemNoStyle == {O("tree.edit", a, 0, v) : a \in 0..2, v \in {2, 3}}
+\* kinds whose undo is only approximate (C14: never fail, never corrupt)
+OpsApprox ==
+  {O("txt.style", a, b, a) : a \in {0, 2}, b \in {0, 1}} \cup {O("txt.edit", 1, 1, 2)} \cup
+  {O("arr.mov", a, b, 0) : a \in 0..2, b \in 0..2} \cup {O("arr.set", a, 0, 3) : a \in 0..2} \cup {O("arr.add", 0, 0, 1)} \cup
+  {O("tree.style", a, 0, v) : a \in 0..1, v \in 0..1} \cup {O("tree.rmstyle", a, 0, 0) : a \in 0..1}
+
 OpsCnt == {O("cnt.inc", 0, 0, v) : v \in {1, 2}}
 \* with wrap-around: +MaxInt32, -MaxInt32, -3
 OpsCntWrap == {O("cnt.inc", 0, 0, v) : v \in {1, 100, 101, 102}}
